@@ -246,6 +246,8 @@ def run(ctx, rep):
                       "parameters/models listens to that attribute")
     rep.rule('C11.B', "the value cached by a CallableModel (`lp`) is read only behind its dirty flag inside CallableModel; everyone else calls the model")
     rep.rule('C11.F', "a dirty flag is cleared only on paths that ran the refresh it guards")
+    rep.rule('C11.S', "a dirty flag that decides the refresh of several caches is cleared only where every one of them is refreshed")
+    rep.rule('C11.D', "no Parametric class stores a value it uses as a parameter / model straight into self.__dict__ (registration as listened-to happens in __setattr__)")
     rep.rule('C11.L', "values that are listened to are selected by the abstract parameter / model kind, never by a concrete leaf class")
     rep.rule('C11.G', "an in-place indexed write into a parameter's tensor is done under torch.no_grad() (or where the tensor is known not to require grad): a parameter update never raises")
     rep.rule('C11.M', "a result memoised on the object is keyed by every method argument it depends on")
@@ -275,6 +277,8 @@ def run(ctx, rep):
     check_transform_cache(ctx, rep)
     check_memo_keys(ctx, rep)
     check_flag_clears(ctx, rep)
+    check_shared_flags(ctx, rep)
+    check_dict_writes(ctx, rep)
     check_cache_bypass(ctx, rep)
     check_listener_filters(ctx, rep)
 
@@ -326,6 +330,190 @@ def check_flag_clears(ctx, rep, rule='C11.F'):
                               f"condition: on the path that skips it the cache is declared fresh without having been recomputed")
     rep.analysed[f'flag_clear_sites[{rule}]'] = n
     return n
+
+
+def check_shared_flags(ctx, rep, rule='C11.S', only=None):
+    """a dirty flag that decides the refresh of several caches may only be cleared where all of them are refreshed: `if self.F: self._A = …; self.F = False` in one
+    method and `if self.F: self._B = …` in another declares _B fresh without recomputing it whenever the first method runs before the second"""
+    n = 0
+    for cls in sorted(ctx.classes.classes.values(), key=lambda c: c.qualname):
+        if only is not None and not only(cls):
+            continue
+        # resolved methods of the class (own and inherited)
+        names = set()
+        for k in cls.internal_mro():
+            for b in k.node.body:
+                if isinstance(b, ast.FunctionDef):
+                    names.add(b.name)
+        fns = {}
+        for nm in sorted(names):
+            for kind in ('method', 'getter', 'setter'):
+                try:
+                    r = cls.resolve(nm, kind)
+                except Exception:
+                    r = None
+                if r:
+                    fns[(nm, kind)] = r[1]
+        if not fns:
+            continue
+
+        def stores_of(node, depth=0, seen=None):
+            """cache attributes stored by executing `node` (following self.method() calls and self.property reads)"""
+            seen = seen if seen is not None else set()
+            out = set()
+            for x in ast.walk(node):
+                if isinstance(x, (ast.Assign, ast.AugAssign)):
+                    for t in (x.targets if isinstance(x, ast.Assign) else [x.target]):
+                        a = self_attr(t)
+                        if a:
+                            out.add(a)
+                elif isinstance(x, ast.Attribute) and self_attr(x) and isinstance(x.ctx, ast.Load) and depth < 4:
+                    nm = x.attr
+                    par = getattr(x, '_parent', None)
+                    is_call = isinstance(par, ast.Call) and par.func is x
+                    key = (nm, 'method') if is_call else (nm, 'getter')
+                    if key in fns and key not in seen:
+                        seen.add(key)
+                        out |= stores_of(fns[key], depth + 1, seen)
+            return out
+
+        def flag_of_test(test):
+            return sorted({self_attr(x) for x in ast.walk(test) if isinstance(x, ast.Attribute) and self_attr(x) and isinstance(x.ctx, ast.Load)
+                           and ('need' in x.attr and 'update' in x.attr)})
+        guarded = {}   # flag -> {cache: (fn, if-node)}
+        clears = []    # (flag, fn, if-node or None, clear stmt)
+        for (nm, kind), fn in fns.items():
+            for node in ast.walk(fn):
+                if isinstance(node, ast.If):
+                    for flag in flag_of_test(node.test):
+                        body_stores = set()
+                        for st in node.body:
+                            for x in ast.walk(st):
+                                if isinstance(x, (ast.Assign, ast.AugAssign)):
+                                    for t in (x.targets if isinstance(x, ast.Assign) else [x.target]):
+                                        a = self_attr(t)
+                                        if a and not ('need' in a and 'update' in a):
+                                            body_stores.add(a)
+                        # only caches that this method also serves (reads outside the guarded block, e.g. `return self._X`) rely on the flag
+                        served = {self_attr(x) for x in ast.walk(fn) if isinstance(x, ast.Attribute) and self_attr(x) and isinstance(x.ctx, ast.Load)
+                                  and not any(x is y for st in node.body for y in ast.walk(st))}
+                        for a in body_stores & served:
+                            guarded.setdefault(flag, {}).setdefault(a, (nm, node))
+                if isinstance(node, ast.Assign) and isinstance(node.value, ast.Constant) and node.value.value is False:
+                    for t in node.targets:
+                        a = self_attr(t)
+                        if a and 'need' in a and 'update' in a:
+                            # innermost enclosing `if` that tests the flag, else the whole function
+                            p = getattr(node, '_parent', None)
+                            blk = None
+                            while p is not None and p is not fn:
+                                if isinstance(p, ast.If) and a in flag_of_test(p.test):
+                                    blk = p
+                                    break
+                                p = getattr(p, '_parent', None)
+                            clears.append((a, nm, fn, blk, node))
+        for flag, nm, fn, blk, st in clears:
+            caches = guarded.get(flag, {})
+            if len(caches) < 1:
+                continue
+            n += 1
+            refreshed = stores_of(blk if blk is not None else fn)
+            missing = sorted(c for c, (where_nm, _) in caches.items() if c not in refreshed)
+            mod = next((k.module for k in cls.internal_mro() if any(b is fn for b in k.node.body)), cls.module)
+            rep.check(rule, f"{cls.qualname}.{nm}::self.{flag}-cleared-where-every-cache-it-guards-is-refreshed", not missing, where(mod, st),
+                      {'caches_guarded_by_flag': {c: v[0] for c, v in caches.items()}, 'refreshed_here': sorted(refreshed & set(caches))},
+                      f"{cls.name}.{nm} clears self.{flag} after refreshing {sorted(refreshed & set(caches))}, but {missing} "
+                      f"({', '.join(caches[c][0] for c in missing)}) is also recomputed only when self.{flag} is set: once {nm} has run, {missing} is served stale")
+    rep.analysed[f'shared_flag_clear_sites[{rule}]'] = n
+    return n
+
+
+PARAM_USES = {'tensor', 'shape', 'sample_shape', 'requires_grad', 'dtype', 'device', 'fire_parameter_changed', 'add_parameter_listener', 'parameters', 'sample', 'log_prob', 'rsample'}
+
+
+def check_dict_writes(ctx, rep, rule='C11.D', only=None):
+    """Parametric.__setattr__ is what registers a parameter / model stored on an object as listened-to.  A value written straight into `self.__dict__` (or through
+    object.__setattr__) is stored without being registered; if the class then reads it as a parameter or model, changes to it never reach the object's caches."""
+    n = 0
+    # the site patterns must recognise the embedded example on every run (the expected count on the repository is zero)
+    t = ast.parse(DICT_POSITIVE)
+    hits = [x for x in ast.walk(t) if (isinstance(x, ast.Call) and isinstance(x.func, ast.Attribute) and x.func.attr == 'update' and isinstance(x.func.value, ast.Attribute)
+                                       and x.func.value.attr == '__dict__') or (isinstance(x, ast.Call) and ast.unparse(x.func) == 'object.__setattr__')
+            or (isinstance(x, ast.Assign) and any(isinstance(tt, ast.Subscript) and isinstance(tt.value, ast.Attribute) and tt.value.attr == '__dict__' for tt in x.targets))]
+    if len(hits) != 3:
+        raise AnalysisError(f"{rule} self-check: {len(hits)} of 3 direct writes recognised in the embedded example")
+    base = ctx.classes.get(PARAMETRIC)
+    classes = [c for c in ctx.classes.subclasses(PARAMETRIC) if c.module.name != base.module.name]
+    for cls in sorted(classes, key=lambda c: c.qualname):
+        if only is not None and not only(cls):
+            continue
+        for fn in [b for b in cls.node.body if isinstance(b, ast.FunctionDef)]:
+            for x in ast.walk(fn):
+                names = 'none'
+                if isinstance(x, ast.Call) and isinstance(x.func, ast.Attribute) and x.func.attr == 'update' and isinstance(x.func.value, ast.Attribute) \
+                        and x.func.value.attr == '__dict__' and isinstance(x.func.value.value, ast.Name) and x.func.value.value.id == 'self':
+                    a = x.args[0] if x.args else None
+                    if isinstance(a, ast.Dict) and all(isinstance(k, ast.Constant) for k in a.keys):
+                        names = {k.value for k in a.keys}
+                    elif isinstance(a, ast.Name) and fn.args.kwarg is not None and a.id == fn.args.kwarg.arg:
+                        # the keywords callers pass to this function
+                        names = set()
+                        for sub in [cls] + ctx.classes.subclasses(cls.qualname, strict=True):
+                            for c2 in ast.walk(sub.node):
+                                if isinstance(c2, ast.Call) and isinstance(c2.func, ast.Attribute) and c2.func.attr == fn.name and isinstance(c2.func.value, ast.Call) \
+                                        and isinstance(c2.func.value.func, ast.Name) and c2.func.value.func.id == 'super':
+                                    params = {p.arg for p in fn.args.args + fn.args.kwonlyargs}
+                                    names |= {k.arg for k in c2.keywords if k.arg and k.arg not in params}
+                                    if any(k.arg is None for k in c2.keywords):
+                                        names = None
+                                        break
+                            if names is None:
+                                break
+                    else:
+                        names = None
+                    names = {k.value for k in x.keywords if False} | names if isinstance(names, set) else names
+                    if isinstance(names, set):
+                        names |= {k.arg for k in x.keywords if k.arg}
+                elif isinstance(x, ast.Assign) and any(isinstance(t, ast.Subscript) and isinstance(t.value, ast.Attribute) and t.value.attr == '__dict__'
+                                                      and isinstance(t.value.value, ast.Name) and t.value.value.id == 'self' for t in x.targets):
+                    t = next(t for t in x.targets if isinstance(t, ast.Subscript))
+                    names = {t.slice.value} if isinstance(t.slice, ast.Constant) else None
+                elif isinstance(x, ast.Call) and ast.unparse(x.func) == 'object.__setattr__' and len(x.args) == 3 and isinstance(x.args[0], ast.Name) and x.args[0].id == 'self':
+                    names = {x.args[1].value} if isinstance(x.args[1], ast.Constant) else None
+                if names == 'none':
+                    continue
+                n += 1
+                key = f"{cls.qualname}.{fn.name}::{norm_text(x)[:50]}"
+                if names is None:
+                    rep.undecided(rule, key, where(cls.module, x), 'attribute names written into self.__dict__ are not static')
+                    continue
+                used = {}
+                for sub in [cls] + ctx.classes.subclasses(cls.qualname, strict=True):
+                    for y in ast.walk(sub.node):
+                        if isinstance(y, ast.Attribute) and isinstance(y.value, ast.Attribute) and self_attr(y.value) in names and y.attr in PARAM_USES:
+                            used.setdefault(self_attr(y.value), f"{sub.name}: self.{self_attr(y.value)}.{y.attr}")
+                        if isinstance(y, ast.Call) and isinstance(y.func, ast.Attribute) and self_attr(y.func) in names:
+                            used.setdefault(self_attr(y.func), f"{sub.name}: self.{self_attr(y.func)}()")
+                rep.check(rule, key, not used, where(cls.module, x), {'names_written': sorted(names), 'read_as_parameter_or_model': used},
+                          f"{cls.name}.{fn.name} stores {sorted(used)} straight into self.__dict__, bypassing Parametric.__setattr__: the values are used as parameters / models "
+                          f"({'; '.join(sorted(used.values()))}) but the object never listens to them, so its cached value survives their updates")
+    rep.analysed[f'dict_write_sites[{rule}]'] = n
+    return n
+
+
+DICT_POSITIVE = """
+class A(Parametric):
+    def __init__(self, id_, theta, **kwargs):
+        self.theta = theta
+        self.__dict__.update(kwargs)
+        self.__dict__['scale'] = kwargs.get('scale')
+        object.__setattr__(self, 'shift', None)
+class B(A):
+    def __init__(self, id_, theta, growth, label):
+        super().__init__(id_, theta, growth=growth, label=label)
+    def f(self):
+        return self.growth.tensor * 2, self.label
+"""
 
 
 # ---------------------------------------------------------------------------
@@ -451,9 +639,11 @@ def check_memo_keys(ctx, rep, rule='C11.M', only=None):
 
 
 # ---------------------------------------------------------------------------
-def check_transform_cache(ctx, rep, rule='C11.X'):
+def check_transform_cache(ctx, rep, rule='C11.X', modules=None, floor=5):
     n = 0
     for m in ctx.prog.modules.values():
+        if modules is not None and m.name not in modules:
+            continue
         for c in ast.walk(m.tree):
             if not isinstance(c, ast.Call):
                 continue
@@ -480,7 +670,7 @@ def check_transform_cache(ctx, rep, rule='C11.X'):
                 rep.check(rule, key, ok, where(m, c), None,
                           f"`{norm_text(c)[:70]}` switches on the transform's (x, y) cache, which is keyed on the identity of x: after an in-place update of the "
                           f"parameter (optimiser step + fire_parameter_changed, in-place proposal) the transform returns the image of the old value")
-    if n < 5:
+    if n < floor:
         raise AnalysisError(f"only {n} cache_size arguments found (transform constructors moved?)")
 
 
